@@ -7,7 +7,7 @@
 (* problem exhibits the demand <<feat, pos>> of UPKinds (HIT / LOST) and   *)
 (* that the computed kind honours it.                                      *)
 (* A case is [grp, cls, feat, pos, var] (strings): feat is the label of    *)
-(* the demand (a feature name, or "A|B" for a two-way demand), pos its     *)
+(* the demand (a feature name, or "A+" for a two-way demand), pos its      *)
 (* position name in UPKinds, var a '-' separated list of variant flags.    *)
 (***************************************************************************)
 EXTENDS UPKinds, Json, IOUtils, SequencesExt
@@ -41,31 +41,33 @@ EffPos ==
 EffCases ==
    UNION {{Case("effect", c, f, p, "") : f \in {"CONDITIONAL_EFFECTS", "FORALL_EFFECTS", "INCREASE_EFFECTS", "DECREASE_EFFECTS"}, p \in EffPos[c]} : c \in Classes}
    \cup {Case("effect", "classical", f, p, "") : f \in {"INCREASE_CONTINUOUS_EFFECTS", "DECREASE_CONTINUOUS_EFFECTS"}, p \in {"process-effect", "continuous-effect"}}
-   \cup {Case("nonlinear", "classical", "NON_LINEAR_CONTINUOUS_EFFECTS", p, v) : p \in {"process-effect", "continuous-effect"}, v \in {"same", "cross"}}
+   \cup {Case("nonlinear", "classical", "NON_LINEAR_CONTINUOUS_EFFECTS", p, "same") : p \in {"process-effect", "continuous-effect"}}
+   \cup {Case("nonlinear", "classical", "NON_LINEAR_CONTINUOUS_EFFECTS", p \o "-other-container", "cross") : p \in {"process-effect", "continuous-effect"}}
 
 \* assignments whose value reads a fluent: X x (fluent changed somewhere | fluent never changed) x effect position x form
 AssignCases ==
    UNION {{Case("assign", c, IF st = "dynamic" THEN "FLUENTS_IN_" \o X \o "_ASSIGNMENTS"
-                             ELSE "STATIC_FLUENTS_IN_" \o X \o "_ASSIGNMENTS|FLUENTS_IN_" \o X \o "_ASSIGNMENTS",
+                             ELSE "STATIC_FLUENTS_IN_" \o X \o "_ASSIGNMENTS+",
                 p \o "-value", "assign-" \o st)
            : X \in {"BOOLEAN", "NUMERIC", "OBJECT"}, st \in {"dynamic", "static"}, p \in EffPos[c]} : c \in Classes}
    \cup UNION {{Case("assign", c, IF st = "dynamic" THEN "FLUENTS_IN_NUMERIC_ASSIGNMENTS"
-                                  ELSE "STATIC_FLUENTS_IN_NUMERIC_ASSIGNMENTS|FLUENTS_IN_NUMERIC_ASSIGNMENTS",
+                                  ELSE "STATIC_FLUENTS_IN_NUMERIC_ASSIGNMENTS+",
                      p \o "-amount", k \o "-" \o st)
                 : k \in {"inc", "dec"}, st \in {"dynamic", "static"}, p \in EffPos[c]} : c \in Classes}
 
 \* ---------- class, typing, fluent types, parameters ----------
 ClassCases ==
    {Case("class", "classical", "ACTION_BASED", "problem-class", ""), Case("class", "htn", "HIERARCHICAL", "problem-class", ""),
-    Case("class", "contingent", "CONTINGENT", "problem-class", ""), Case("class", "ma", "ACTION_BASED_MULTI_AGENT", "problem-class", ""),
+    Case("class", "contingent", "CONTINGENT", "problem-class", ""), Case("class", "contingent", "CONTINGENT", "problem-class", "sensing"), Case("class", "ma", "ACTION_BASED_MULTI_AGENT", "problem-class", ""),
     Case("class", "scheduling", "SCHEDULING", "problem-class", ""),
     Case("class", "classical", "CONTINGENT", "sensing-action", "")}
 \* var = where the (only) use of the user type is
+TypingFeats == {"FLAT_TYPING", "HIERARCHICAL_TYPING"}
 TypingCases ==
-   {Case("typing", c, f, "types", v) : c \in {"classical", "ma", "scheduling"}, f \in {"FLAT_TYPING", "HIERARCHICAL_TYPING"},
-                                        v \in {"object", "fluent-type", "fluent-parameter", "action-parameter"}}
-   \cup {Case("typing", "htn", f, "types", v) : f \in {"FLAT_TYPING", "HIERARCHICAL_TYPING"}, v \in {"object", "task-parameter", "method-parameter"}}
-   \cup {Case("typing", "classical", f, "types", v) : f \in {"FLAT_TYPING", "HIERARCHICAL_TYPING"}, v \in {"event-parameter", "process-parameter", "durative-action-parameter"}}
+   {Case("typing", c, f, "types:" \o u[2], u[1]) : c \in {"classical", "ma", "scheduling"}, f \in TypingFeats,
+          u \in {<<"object", "o">>, <<"fluent-type", "f">>, <<"fluent-parameter", "p">>, <<"action-parameter", "a">>}}
+   \cup {Case("typing", "htn", f, "types:" \o u[2], u[1]) : f \in TypingFeats, u \in {<<"object", "o">>, <<"task-parameter", "-">>, <<"method-parameter", "-">>}}
+   \cup {Case("typing", "classical", f, "types:a", v) : f \in TypingFeats, v \in {"event-parameter", "process-parameter", "durative-action-parameter"}}
 FluentCases ==
    UNION {{Case("fluent", c, f, "fluent-type", v) : f \in {"INT_FLUENTS", "REAL_FLUENTS", "OBJECT_FLUENTS"}, v \in {"used", "unused"}}
           \cup {Case("fluent", c, "BOUNDED_TYPES", "fluent-type", v) : v \in {"int-lo", "int-hi", "int-both", "real-both", "real-lo", "int-both-unused"}}
@@ -97,9 +99,9 @@ TimeCases ==
    \cup {Case("time", "classical", "PROCESSES", "process", ""), Case("time", "classical", "EVENTS", "event", "")}
 DurationCases ==
    UNION {{Case("duration", c, "FLUENTS_IN_DURATIONS", "duration-" \o s \o "-bound", v) : s \in {"lower", "upper"}, v \in {"plain", "nested"}}
-          \cup {Case("duration", c, "STATIC_FLUENTS_IN_DURATIONS|FLUENTS_IN_DURATIONS", "duration-" \o s \o "-bound", v) : s \in {"lower", "upper"}, v \in {"plain", "nested"}}
+          \cup {Case("duration", c, "STATIC_FLUENTS_IN_DURATIONS+", "duration-" \o s \o "-bound", v) : s \in {"lower", "upper"}, v \in {"plain", "nested"}}
           \cup {Case("duration", c, f, "duration-" \o s \o "-bound", v) : f \in {"INT_TYPE_DURATIONS", "REAL_TYPE_DURATIONS"}, s \in {"lower", "upper"}, v \in {"constant", "fluent"}}
-          \cup {Case("duration", c, "INT_TYPE_DURATIONS|REAL_TYPE_DURATIONS", "duration-" \o s \o "-bound", "division") : s \in {"lower", "upper"}}
+          \cup {Case("duration", c, "INT_TYPE_DURATIONS+", "duration-" \o s \o "-bound", "division") : s \in {"lower", "upper"}}
           : c \in {"classical", "scheduling"}}
 
 \* ---------- metrics, constraints, initial state ----------
@@ -110,14 +112,14 @@ MetricCases ==
    \cup {Case("metric", "scheduling", "MAKESPAN", "metric", "only")}
    \cup {Case("metric", "classical", f, p, v) : f \in {"INT_NUMBERS_IN_ACTIONS_COST", "REAL_NUMBERS_IN_ACTIONS_COST"},
              p \in {"action-cost", "default-action-cost"}, v \in {"constant", "fluent"}}
-   \cup {Case("metric", "classical", "INT_NUMBERS_IN_ACTIONS_COST|REAL_NUMBERS_IN_ACTIONS_COST", p, "division") : p \in {"action-cost", "default-action-cost"}}
-   \cup {Case("metric", "classical", f, p, "") : f \in {"FLUENTS_IN_ACTIONS_COST", "STATIC_FLUENTS_IN_ACTIONS_COST|FLUENTS_IN_ACTIONS_COST"},
+   \cup {Case("metric", "classical", "INT_NUMBERS_IN_ACTIONS_COST+", p, "division") : p \in {"action-cost", "default-action-cost"}}
+   \cup {Case("metric", "classical", f, p, "") : f \in {"FLUENTS_IN_ACTIONS_COST", "STATIC_FLUENTS_IN_ACTIONS_COST+"},
              p \in {"action-cost", "default-action-cost"}}
    \cup {Case("metric", "classical", f, p, "") : f \in {"INT_NUMBERS_IN_OVERSUBSCRIPTION", "REAL_NUMBERS_IN_OVERSUBSCRIPTION"},
              p \in {"oversubscription-gain", "temporal-oversubscription-gain"}}
 ConstraintCases ==
    {Case("constraint", c, "STATE_INVARIANTS", "state-invariant", "plain") : c \in {"classical", "htn"}}
-   \cup {Case("constraint", "classical", "STATE_INVARIANTS", "state-invariant", v) : v \in {"in-and", "in-forall"}}
+   \cup {Case("constraint", "classical", "STATE_INVARIANTS", "state-invariant-" \o v, v) : v \in {"in-and", "in-forall"}}
    \cup {Case("constraint", "classical", "TRAJECTORY_CONSTRAINTS", "trajectory-constraint", v) : v \in {"sometime", "amo", "sbefore", "safter", "in-and", "in-forall"}}
 InitCases ==
    {Case("init", c, "UNDEFINED_INITIAL_NUMERIC", "initial-state", t \o "-" \o v) : c \in {"classical", "ma", "scheduling"}, t \in {"int", "real"}, v \in {"none", "partial"}}
@@ -130,8 +132,8 @@ HtnCases ==
     Case("htn", "htn", "TASK_NETWORK_CONSTRAINTS", "task-network-constraint", ""),
     Case("htn", "htn", "INITIAL_TASK_NETWORK_VARIABLES", "task-network-variable", "")}
    \cup {Case("htn", "htn", "TASK_ORDER_TEMPORAL", "task-order", w \o "-" \o v) : w \in {"net", "method"}, v \in {"delay", "start-start", "le"}}
-   \cup {Case("htn", "htn", "TASK_ORDER_PARTIAL|TASK_ORDER_TEMPORAL", "task-order", w \o "-" \o v) : w \in {"net", "method"}, v \in {"unordered", "fork", "cycle"}}
-   \cup {Case("htn", "htn", "TASK_ORDER_TOTAL|TASK_ORDER_PARTIAL|TASK_ORDER_TEMPORAL", "task-order", v) : v \in {"chain", "single", "empty", "redundant"}}
+   \cup {Case("htn", "htn", "TASK_ORDER_PARTIAL+", "task-order", w \o "-" \o v) : w \in {"net", "method"}, v \in {"unordered", "fork", "cycle"}}
+   \cup {Case("htn", "htn", "TASK_ORDER_TOTAL+", "task-order", v) : v \in {"chain", "single", "empty", "redundant"}}
 AgentCases ==
    {Case("ma", "ma", "AGENT_SPECIFIC_PUBLIC_GOAL", "agent-goal", ""), Case("ma", "ma", "AGENT_SPECIFIC_PRIVATE_GOAL", "agent-goal", "")}
 SchedCases ==
